@@ -91,6 +91,8 @@ Ev(r) ==
             /\ r.ret \o r.pending = r.prompt \o r.fresh
             /\ UNCHANGED <<bs, pr, ac, fb>>
       [] r.ev = "End" -> (bs[0] = bs[1] => r.st0 = r.st1) /\ UNCHANGED <<bs, pr, ac, fb>>
+      (* a call that failed with a resource limit (item / fuel limits on very ambiguous grammars) says nothing *)
+      [] r.ev = "Limit" -> UNCHANGED <<bs, pr, ac, fb>>
       [] OTHER -> FALSE
 
 Step == Rec[l].ev # "Init" /\ ini > 0 /\ Ev(Rec[l]) /\ UNCHANGED ini
